@@ -1,10 +1,11 @@
 /-
-C14 model — behaviour switching, mirroring the CURRENT code (after fix c9f88bb):
+C14 model — behaviour switching, mirroring the CURRENT code (after fix c9f88bb and the fix that
+keeps the base behaviour in unsetBehaviorStacked):
 
   actor/behavior_stack.go   behaviorStack {top, length}: Peek / Pop / Push / Reset / Len
   actor/pid.go              newPID pushes actor.Receive; setBehavior = Reset;Push b
                             resetBehavior = Reset;Push actor.Receive
-                            setBehaviorStacked = Push b; unsetBehaviorStacked = Pop
+                            setBehaviorStacked = Push b; unsetBehaviorStacked = `if Len() > 1 { Pop() }`
                             handleReceived: `if behavior := Peek(); behavior != nil { behavior(received) }`
   actor/receive_context.go  Become / BecomeStacked / UnBecomeStacked / UnBecome call the four above
 
@@ -58,7 +59,9 @@ def PID.init (d : Beh) : PID := ⟨d, BStack.new.push d⟩
 def setBehavior (p : PID) (b : Beh) : PID := { p with stack := (p.stack.reset).push b }
 def resetBehavior (p : PID) : PID := { p with stack := (p.stack.reset).push p.dflt }
 def setBehaviorStacked (p : PID) (b : Beh) : PID := { p with stack := p.stack.push b }
-def unsetBehaviorStacked (p : PID) : PID := { p with stack := p.stack.pop }
+/-- `if pid.behaviorStack.Len() > 1 { pid.behaviorStack.Pop() }` — the guard reads the length COUNTER -/
+def unsetBehaviorStacked (p : PID) : PID :=
+  if p.stack.len > 1 then { p with stack := p.stack.pop } else p
 
 /-- ReceiveContext.Become / BecomeStacked / UnBecomeStacked / UnBecome -/
 def applyOp (p : PID) : Op → PID
